@@ -20,6 +20,7 @@ EXPLANATION = (
     "copy (input[:]); an ndarray given to LPF is wrapped and treated as noise-free. "
     "Trusted: scipy's documented semantics of bessel(norm='mag')/sosfiltfilt. Not decided: the numbers (6.0 dB, monotonic roll-off).")
 EXPLANATION += (" Added after the audit wave: C11.2 the edge padding handed to sosfiltfilt is capped by the input length (scipy's default 3*(2*sections+1) exceeds the 16-sample bound of the statement for orders 5..8), and LPF promotes integer samples to a floating type before filtering (the odd edge extension wraps in uint8).")
+EXPLANATION += (" Second audit wave: C11.6 (open known finding) LPF and BPF apply sosfiltfilt with the odd edge extension: on a record shorter than the filter's memory the pedestal 2*x[0] is held across the output and a stationary tone gains power; holds for the even / constant extension.")
 TRUSTED = ["scipy.signal.bessel(norm='mag') has unit DC gain and -3 dB at Wn", "scipy.signal.sosfiltfilt is linear, zero-phase, squares the magnitude", "scipy.signal.sosfreqz"]
 
 BESSEL_SIG = ["N", "Wn", "btype", "analog", "output", "norm", "fs"]
@@ -67,6 +68,27 @@ def check_bessel(ctx, fi, it, case, want_wn, want_fs, order_param):
     else:
         ctx.holds("C11.1", fi, r.node, f"{fi.name} [{case}]: {src_of(r.node)}", f"bessel low/sos/mag, N={order_param}, Wn={want_wn!r}, fs={want_fs!r}")
     return r.result
+
+
+_EDGE = {}
+
+
+def rule_edge_extension(ctx):
+    """C11.6 sosfiltfilt pads the record with its ODD extension by default and starts from the steady state of a constant x[0]: the
+    extended record rides on a pedestal of 2*x[0].  When the record (hence the padding, at most len-1 samples) is shorter than the
+    filter's memory the low-pass holds that pedestal across the whole output: a tone that fills a 17-sample record with whole
+    periods leaves LPF(0.0101*fs, order 8) with 10.7 times its power (BPF: 5.4 times) - "never increase the power of a stationary
+    tone" fails for records of up to about 33 samples with low cutoffs.  With the even extension the worst ratio is below 1."""
+    for q, calls in sorted(_EDGE.items()):
+        fi = ctx.pkg.func(q)
+        label = f"{fi.name}: edge extension of the zero-phase filter adds no pedestal (padtype is not 'odd')"
+        odd = [n for n, is_odd in calls if is_odd]
+        if odd:
+            ctx.violation("C11.6", fi, odd[0], label, f"{len(odd)} of {len(calls)} sosfiltfilt applications use scipy's default odd extension: on a record shorter than the filter's memory the "
+                          "pedestal 2*x[0] of the extension is held across the output and a stationary tone GAINS power (x10.7 for 17 samples, cutoff 0.0101*fs, order 8)")
+        else:
+            ctx.holds("C11.6", fi, calls[0][0], label, "even / constant extension")
+    _EDGE.clear()
 
 
 def check_apply(ctx, fi, it, case, out, node, sos, sig_in, noise_in, real_part):
@@ -130,6 +152,8 @@ def check_apply(ctx, fi, it, case, out, node, sos, sig_in, noise_in, real_part):
         ax = kw.get("axis", args[2] if len(args) > 2 else Form.num(-1))
         if not (isinstance(ax, Form) and ax == Form.num(-1)):
             probs.append(f"axis={ax!r}: rows (polarisations) are not filtered independently along the last axis")
+        pt = kw.get("padtype")
+        _EDGE.setdefault(fi.qualname, []).append((node, pt is None or (isinstance(pt, Const) and pt.v == "odd")))
         extra = set(kw) - {"axis", "padtype", "padlen"}
         if extra:
             probs.append(f"unexpected keywords {sorted(extra)}")
@@ -143,6 +167,7 @@ def check_apply(ctx, fi, it, case, out, node, sos, sig_in, noise_in, real_part):
 
 def run(ctx):
     pkg = ctx.pkg
+    _EDGE.clear()
     # ------------------------------------------------------------------ LPF
     fi = pkg.func("devices.LPF")
     for noise in ("none", "notnone"):
@@ -237,6 +262,8 @@ def run(ctx):
     outs = it.run(fb)
     pass  # (clause removed: the property statement names no exception for this case - it was read off the docstring, i.e. the check demanded more than the property)
     check_late_binding(ctx, "C11.5", ["devices.LPF", "devices.BPF"])
+    rule_edge_extension(ctx)
+    ctx.require_min("C11.6", 2)
     ctx.require_min("C11.1", 6)
     ctx.require_min("C11.2", 10)
     ctx.require_min("C11.3", 1)
